@@ -7,6 +7,7 @@ import Driver.EventsCmd
 import Driver.GennyCmd
 import Driver.CsvCmd
 import Driver.MetricsCmd
+import Driver.RecCmd
 open Driver
 
 def dispatch (line : String) : String :=
@@ -21,6 +22,7 @@ def dispatch (line : String) : String :=
     | "csv" => csvCmd rest
     | "json" => jsonCmd rest
     | "runtime-trace" => runtimeTraceCmd rest
+    | "rec" => recCmd rest
     | "hist" => histCmd rest
     | "uhist" => uhistCmd rest
     | "read" => readCmd rest
